@@ -30,8 +30,52 @@ def check_modifying_sentinel(ctx):
     litdomain.check(ctx, 'R11.4', lambda fi, p, ann: fi.qualname in ('_modifying', '_Modifying.__init__') and p == 'field', 8)
 
 
+def check_offset_arm(ctx):
+    """R11.5: `put_src(..., action='offset')` promises that every node after the spot moves by the size of the change.  In the arm that serves that
+    action every text splice is an offsetting one (`_put_src(..., tail, ...)`), and where the splice excludes `self` from its own walk the `_offset()`
+    of `self`'s subtree follows on every path.  A splice without offsetting is what `action=None` is for."""
+    from ..inline import inlined
+    from ..cfg import CFG, subnodes
+    from ..struct import parent_map, enclosing_tests
+    from .c02 import put_src_offsets, pos_args
+    ctx.rule('R11.5', 'in the `action == \'offset\'` arm of put_src() every text splice offsets the tree, and a splice that excludes `self` is followed '
+                      'on every path by the _offset() of self', 1)
+    n = 0
+    for fi in ctx.repo.funcs('fst', 'FST.put_src'):
+        fn, _ = inlined(ctx.repo, fi, 2)
+        par = parent_map(fn)
+        cfg = CFG(fn)
+
+        def in_offset_arm(x):
+            for t, pol in enclosing_tests(fn, x, par):
+                if pol and isinstance(t, ast.Compare) and len(t.ops) == 1 and isinstance(t.ops[0], ast.Eq) and isinstance(t.left, ast.Name) and \
+                        t.left.id == 'action' and isinstance(t.comparators[0], ast.Constant) and t.comparators[0].value == 'offset':
+                    return True
+            return False
+        off_nodes = {nd.id for nd in cfg.nodes if any(isinstance(x, ast.Call) and call_name(x) == '_offset' for x in subnodes(cfg, nd))}
+        for nd in cfg.nodes:
+            for x in subnodes(cfg, nd):
+                if not (isinstance(x, ast.Call) and call_name(x) == '_put_src' and in_offset_arm(x)):
+                    continue
+                n += 1
+                offs = put_src_offsets(x)
+                ctx.check('R11.5', offs, fi.module, fi.qualname, f'splice in the offset arm: {norm(x, 70)}',
+                          'a text splice in the arm that serves action=\'offset\' does not offset the tree (no `tail` argument): every node after the spot '
+                          'keeps its old position unless the new text happens to have the same shape', x.lineno, sample=norm(x, 90))
+                pa = pos_args(x)
+                excl = pa[7] if len(pa) > 7 else next((k.value for k in x.keywords if k.arg == 'exclude'), None)
+                if offs and excl is not None and not (isinstance(excl, ast.Constant) and excl.value is None):
+                    esc = cfg.reachable(nd.id, lambda n_, lab, s_: lab != 'exc', stop=off_nodes)
+                    ctx.check('R11.5', cfg.exit not in esc, fi.module, fi.qualname, f'_offset() of the excluded node after {norm(x, 50)}',
+                              f'the splice excludes `{norm(excl)}` from the offset walk and a path reaches the end of put_src() without the separate '
+                              f'_offset() of that node: its own subtree keeps the old positions', x.lineno)
+    if n < 1:
+        raise AnalysisError("put_src(): no text splice found in the arm for action == 'offset' (anchor vanished)")
+
+
 def run(ctx):
     check_modifying_sentinel(ctx)
+    check_offset_arm(ctx)
     ctx.not_decided += ['head / tail rules for nodes that begin or end exactly at the edit point', 'equality with a from-scratch parse of the new source']
     F = T.fields(ctx)
     ctx.rule('R11.1', 'children are enumerated completely and in source order (table vs grammar); interleaved builders restore the '
